@@ -860,6 +860,36 @@ impl<'ps> PartitionKey<'ps> {
     }
 }
 
+/// Verification hooks: thin pass-throughs to private items, no logic.
+#[cfg(feature = "scylla-verif")]
+pub(crate) mod verif_hooks {
+    use super::{PartitionKey, TokenCalculationError};
+    use crate::routing::Token;
+    use crate::routing::partitioner::PartitionerName;
+    use scylla_cql::frame::response::result::PreparedMetadata;
+    use scylla_cql::serialize::row::SerializedValues;
+
+    /// `None` = partition key extraction failed.
+    pub(crate) fn pk_token(
+        meta: &PreparedMetadata,
+        values: &SerializedValues,
+        partitioner: &PartitionerName,
+    ) -> Option<Result<Token, TokenCalculationError>> {
+        let pk = PartitionKey::new(meta, values).ok()?;
+        Some(pk.calculate_token(partitioner))
+    }
+
+    /// `None` = partition key extraction failed.
+    pub(crate) fn pk_encode(
+        meta: &PreparedMetadata,
+        values: &SerializedValues,
+        writer: &mut impl FnMut(&[u8]),
+    ) -> Option<Result<(), TokenCalculationError>> {
+        let pk = PartitionKey::new(meta, values).ok()?;
+        Some(pk.write_encoded_partition_key(writer))
+    }
+}
+
 #[cfg(test)]
 mod tests {
     use crate::frame::response::result::{
